@@ -472,3 +472,30 @@ func (ex *Exec) store(pv Value, v Value) {
 	}
 	panic(unsupported(fmt.Sprintf("store through %T", pv)))
 }
+
+// sameValue is identity on values, safe for the non-comparable representations.
+func sameValue(a, b Value) bool {
+	switch x := a.(type) {
+	case Str:
+		y, ok := b.(Str)
+		if !ok || len(x.b) != len(y.b) {
+			return false
+		}
+		for i := range x.b {
+			if x.b[i] != y.b[i] {
+				return false
+			}
+		}
+		return true
+	case Slice:
+		y, ok := b.(Slice)
+		return ok && x.arr == y.arr && x.off == y.off && x.len == y.len && x.cap == y.cap
+	case Rope, Tuple, GPtr, Closure, FVal:
+		return false
+	}
+	switch b.(type) {
+	case Str, Slice, Rope, Tuple, GPtr, Closure, FVal:
+		return false
+	}
+	return a == b
+}
